@@ -27,17 +27,30 @@ pub fn get_atom(config: &SmartCalcConfig, data: &str, group_item: &[Regex]) -> V
 
             let token_type = match atom_type {
                 "TIME" => {
-                    let seconds = data.parse::<u32>().unwrap();
+                    let seconds = match data.parse::<u32>() {
+                        Ok(seconds) => seconds,
+                        Err(_) => continue
+                    };
                     let date = Utc::now().naive_local().date();
-                    let time = NaiveTime::from_num_seconds_from_midnight(seconds, 0);
+                    let time = match NaiveTime::from_num_seconds_from_midnight_opt(seconds, 0) {
+                        Some(time) => time,
+                        None => continue
+                    };
                     let date_time = NaiveDateTime::new(date, time);
                     
                     TokenType::Time(date_time, config.get_time_offset())
                 },
                 "MONEY" => {
                     let splited_data: Vec<&str> = data.split(';').collect();
+                    if splited_data.len() != 2 {
+                        continue;
+                    }
+                    let price = match splited_data[0].parse::<f64>() {
+                        Ok(price) => price,
+                        Err(_) => continue
+                    };
                     match config.get_currency(splited_data[1].to_string()) {
-                        Some(currency_info) => TokenType::Money(splited_data[0].parse::<f64>().unwrap(), currency_info.clone()),
+                        Some(currency_info) => TokenType::Money(price, currency_info.clone()),
                         None => {
                             log::info!("Currency information not found, {}", splited_data[1]);
                             continue
@@ -45,11 +58,17 @@ pub fn get_atom(config: &SmartCalcConfig, data: &str, group_item: &[Regex]) -> V
                     }
                 },
                 "NUMBER" => {
-                    let number = data.parse::<f64>().unwrap();
+                    let number = match data.parse::<f64>() {
+                        Ok(number) => number,
+                        Err(_) => continue
+                    };
                     TokenType::Number(number, NumberType::Decimal)
                 },
                 "PERCENT" => {
-                    let number = data.parse::<f64>().unwrap();
+                    let number = match data.parse::<f64>() {
+                        Ok(number) => number,
+                        Err(_) => continue
+                    };
                     TokenType::Percent(number)
                 },
                 "OPERATOR" => TokenType::Operator(data.chars().next().unwrap()),
